@@ -236,4 +236,4 @@ def search(ctx):
     thorough = ctx.tier == "thorough"
     ctx.enumerate(enum_undisturbed(), "boundary lengths x block-size sequences x CRC negotiation, undisturbed")
     ctx.enumerate(enum_single_loss(), "every single lost segment position, lengths <= 200 x block sizes")
-    ctx.hypothesis(rand_case(10000 if thorough else 3000), 5000 if thorough else 1500)
+    ctx.hypothesis(rand_case(10000 if thorough else 3000), 25000 if thorough else 1500)
